@@ -451,14 +451,14 @@ Section PHist.
     | _ => []
     end.
 
-  (* [cur1f P]: the current slot when the node's answer for period P arrived (the loop's
-     current-slot test); the window's lower bound is computed before the request, from [cur] *)
+  (* [cur1f P]: the current slot when the node's answer for period P arrived (second clamp of the
+     first slot, the loop's current-slot test); the window is computed before the request, from [cur] *)
   Definition sync_new_ok_g (fork : N) (e_ : env) (cur : N) (cur1f : N -> N) (ps : list (N * bool)) (j : job) : bool :=
     match j_name j with
     | JSync s =>
         e_vals e_ && (fork <=? ep_of cur) &&
         existsb (fun pn => let '(P, nc) := pn in
-                   (sync_lo fork cur P <=? s) && (s <=? sync_hi fork P) && negb ((s =? cur1f P) && nc) &&
+                   (sync_lo fork cur P <=? s) && (cur1f P <=? s) && (s <=? sync_hi fork P) && negb ((s =? cur1f P) && nc) &&
                    pay_eqb (j_pay j) (exp_sync e_ P) &&
                    negb (match exp_sync e_ P with [] => true | _ => false end)) ps
     | _ => true
@@ -530,10 +530,9 @@ Section PHist.
 
   (* Histories with late answers.  Every job is set up for a slot that has not passed AT THE TIME
      IT IS SET UP: the scheduler accepted it while the current slot was [at_], and the slot of an
-     attestation / proposal job is not earlier than that -- strictly later in a (re)start and for
-     the proposals of a refresh, which are told not to schedule the current slot.  (Sync committee
-     preparation jobs: the window's lower bound is fixed before the request in the code; the
-     clause keeps to that reading, see notes/C03.md.)  The per-class clauses of [step_ok_g] are
+     attestation / proposal / sync committee preparation job is not earlier than that -- strictly
+     later in a (re)start and for the proposals of a refresh, which are told not to schedule the
+     current slot.  The per-class clauses of [step_ok_g] are
      evaluated with the clock of the moment the answer arrived. *)
   Definition setups_ok (o : op) (cur0 : N) (su : list (jname * N)) : bool :=
     let strict_all := match o with Start => true | _ => false end in
@@ -542,7 +541,7 @@ Section PHist.
       match n with
       | JAtt s => (at_ <=? s) && negb (strict_all && (s =? at_))
       | JProp s | JEarly s => (at_ <=? s) && negb (strict_prop && (s =? at_))
-      | JSync s => (cur0 <=? s) && negb (strict_all && (s =? at_))
+      | JSync s => (at_ <=? s) && negb (strict_all && (s =? at_))
       | JPrep _ => true
       end) su.
 
